@@ -100,16 +100,48 @@ def _settings_equal(inst, orig):
 AB64 = ("pbkdf2_sha1", "pbkdf2_sha256", "pbkdf2_sha512", "scram")     # fields read with ab64_decode
 
 
+#: formats that decode their big-endian base64 fields to bytes and compare bytes: the unused low bits of a field's last symbol
+#: do not reach the digest ("unused padding bits" in the property's list of accepted re-encodings)
+PAD_LENIENT = AB64 + ("scrypt", "ldap_md5", "ldap_sha1", "ldap_salted_md5", "ldap_salted_sha1", "ldap_salted_sha256",
+                      "ldap_salted_sha512", "cta_pbkdf2_sha1", "atlassian_pbkdf2_sha1")
+
+
+def _pad_alts(base, tmpl, pos, orig_ch, ch):
+    if base.name not in PAD_LENIENT:
+        return []
+    seps = "$,=|}{:"
+    a = pos
+    while a > 0 and tmpl[a - 1] not in seps:
+        a -= 1
+    b = pos
+    while b < len(tmpl) and tmpl[b] not in seps:
+        b += 1
+    n = b - a
+    unused = (6 * n) % 8
+    if pos != b - 1 or n < 2 or unused == 0:
+        return []
+    alphabet = "ABCDEFGHIJKLMNOPQRSTUVWXYZabcdefghijklmnopqrstuvwxyz0123456789" + \
+               ("./" if base.name in AB64 else "-_" if base.name == "cta_pbkdf2_sha1" else "+/")
+    if orig_ch not in alphabet:
+        return []
+    v = alphabet.index(orig_ch)
+    out = [ch == ord(alphabet[w]) for w in range(64) if w >> unused == v >> unused and w != v]
+    if base.name in AB64 and any(alphabet[w] == "." for w in range(64) if w >> unused == v >> unused):
+        out.append(ch == ord("+"))
+    return out
+
+
 def equivalent(base, tmpl, pos, orig_ch, ch):
     """documented equivalences for a substituted character: hex letter case; '+' for '.' in ab64 fields"""
     alts = []
     if base.name in AB64 and orig_ch == ".":
         alts.append(ch == ord("+"))       # ab64_decode: "uses custom ./ altchars, but supports decoding normal +/ altchars as well"
+    alts += _pad_alts(base, tmpl, pos, orig_ch, ch)
     cc = getattr(base, "checksum_chars", None)
     hexish = isinstance(cc, (str, hashenv.SCharSet)) and set(str(cc)) <= set("0123456789abcdefABCDEF") and len(str(cc)) >= 16
     if (hexish or base.name in ("lmhash", "nthash", "mssql2000", "mssql2005", "oracle10", "oracle11", "mysql323", "mysql41",
                                 "postgres_md5", "msdcc", "msdcc2", "hex_md4", "hex_md5", "hex_sha1", "hex_sha256", "hex_sha512",
-                                "cisco_type7", "htdigest")) and orig_ch.isalpha() and orig_ch.isascii():
+                                "cisco_type7", "htdigest", "grub_pbkdf2_sha512")) and orig_ch.isalpha() and orig_ch.isascii():
         alts.append(ch == ord(orig_ch.swapcase()))
     return z3.Or(*alts) if alts else z3.BoolVal(False)
 
@@ -144,16 +176,27 @@ def ob_mutate(name, tindex, kind, positions):
             g = good_chk.get(alg)
             if orig is not None and g is not None and _settings_equal(self_, orig):
                 return g
-            return (g[:-1] + bytes([g[-1] ^ 1])) if g else b"\x00"
+            return bytes(b ^ 0xFF for b in g) if g else b"\x00"
         if orig is not None and _settings_equal(self_, orig):
             return good_chk
+        # another digest: different in *every* symbol, so that no one-character edit of the stored digest can meet it
         if isinstance(good_chk, str):
-            return good_chk[:-1] + ("A" if good_chk[-1] != "A" else "B")
+            return "".join(("A" if c != "A" else "B") if c not in "0123456789abcdef" else ("0" if c != "0" else "1") for c in good_chk)
         if isinstance(good_chk, bytes):
-            return good_chk[:-1] + bytes([good_chk[-1] ^ 1])
+            return bytes(b ^ 0xFF for b in good_chk)
         return good_chk
     if orig is not None and hasattr(base, "_calc_checksum") and good_chk is not None:
         triples.append((base, "_calc_checksum", calc))
+    if base.name == "mssql2000" and orig is not None and good_chk is not None:
+        # its verify() calls the digest routine directly (upper-cased password, second digest only)
+        import passlib.handlers.mssql as _ms
+
+        def raw_mssql(secret, salt):
+            same = (SBytes.lift(salt) == SBytes.lift(orig.salt))
+            if bool(same):
+                return good_chk[20:]
+            return bytes(b ^ 0xFF for b in good_chk[20:])
+        triples.append((_ms, "_raw_mssql", raw_mssql))
     npaths = 0
     for pos in positions:
         if pos > len(t) or (kind in ("sub", "bsub") and pos >= len(t)):
@@ -199,7 +242,7 @@ def ob_mutate(name, tindex, kind, positions):
                 results.append(inconclusive("vacuous: the unmodified hash (as bytes) is not identified on any path at position %d" % pos,
                                             name="%s[#%d,%s@%d]" % (name, tindex, kind, pos)))
                 continue
-        if kind == "sub" and good_chk is not None and hasattr(base, "_calc_checksum"):
+        if kind == "sub" and good_chk is not None and hasattr(base, "_calc_checksum") and not getattr(base, "is_disabled", False):
             # reachability witness: with the original character this is the unmodified hash, which must verify on some path
             def _accepts(p):
                 v = p.result.get("verify") if p.exc is None else None
@@ -221,6 +264,8 @@ def ob_mutate(name, tindex, kind, positions):
             v = o["verify"]
             if name == "scram" and _scram_unconsulted(t, pos, kind):
                 continue       # by design: verify() consults one digest (the first of _verify_algs present); the others are not its input
+            if base.name == "mssql2000" and _mssql2000_unconsulted(t, pos, kind):
+                continue       # documented: "Only the second digest is used when verifying passwords"
             if v is True or (isinstance(v, SBool)):
                 # accepted: must be the original character or a documented re-encoding of the same digest bits
                 claim = (ch == ord(orig_ch)) if kind in ("sub", "bsub") else z3.BoolVal(False)
@@ -392,6 +437,12 @@ def ob_concrete(names):
               verdict="finite-enumeration", nontrivial=False)
 
 
+def _mssql2000_unconsulted(t, pos, kind):
+    """'0x0100' + 8 hex salt + 40 hex first digest + 40 hex second digest: is the edit confined to the first digest's text?
+    (a substitution keeps the layout; an insertion shifts everything behind it, so it is never confined)"""
+    return kind in ("sub", "bsub") and len(t) == 94 and 14 <= pos < 54
+
+
 def _scram_unconsulted(t, pos, kind):
     """is this position inside the digest text of an algorithm scram.verify() does not consult?"""
     from passlib.hash import scram
@@ -405,7 +456,7 @@ def _scram_unconsulted(t, pos, kind):
             alg, dig = item.split("=")
             d0 = off + len(alg) + 1
             d1 = d0 + len(dig)                 # digest text occupies [d0, d1)
-            if alg != used and (d0 <= pos < d1 or (kind == "ins" and d0 < pos < d1)):
+            if alg != used and (d0 <= pos < d1 or (kind == "ins" and d0 < pos <= d1)):     # an insertion at d1 still lengthens this digest
                 return True
             off += len(item) + 1
     except Exception:
@@ -471,6 +522,9 @@ def ob_expanders(names):
 def _by_design(name, orig, mutated):
     """documented behaviour that is not an alteration of what verify() consults: scram stores one digest per algorithm and
     verify() (full=False) checks the strongest one only, so edits confined to the other digests are outside its contract"""
+    if name == "mssql2000" and isinstance(mutated, (str, bytes)) and len(orig) == len(mutated) == 94:
+        mt = mutated if isinstance(mutated, str) else mutated.decode("latin-1")
+        return orig[:14] == mt[:14] and orig[54:].upper() == mt[54:].upper()       # only the unconsulted first digest differs
     if name == "scram" and isinstance(mutated, str):
         try:
             from passlib.hash import scram
@@ -504,7 +558,7 @@ def run(tier, seed, t0, only=None):
                 "ldap_salted_sha1", "mssql2005", "django_pbkdf2_sha256", "sun_md5_crypt", "fshp", "cisco_type7", "mysql41",
                 "bcrypt_sha256", "scram", "lmhash", "oracle11", "ldap_md5_crypt", "grub_pbkdf2_sha512"]
         # plus every format whose hash is short: all positions cost little there
-        sel = [n for n in names if n in core or len((templates(n)[1] or ["x" * 99])[0]) <= 40]
+        sel = names          # since table look-ups are decided as multiplexers every hasher fits into the quick tier
     else:
         sel = names
     obs = []
